@@ -1036,22 +1036,49 @@ def rule_r11(repo, run):
                       "after a `,` the loop goes back to `while self.token.typ != %r`: when the next token is the closer the list "
                       "ends normally, so `(a,)` / `<T,>` is silently accepted" % closer, dm.loc(lp))
     run.floor(R, "separator loops of the parser", n, 5)
-    # a list that must have an element: `template<>` has no parameter for FunctionNode to name the instantiations by
-    ts = dm.func("Parser.template_statement")
-    lps = [l for l in ast.walk(ts) if isinstance(l, ast.While) and "self.token.typ != 'GT'" in str(dm.seg(l.test))]
-    if not lps:
-        raise AnalysisError("C17.R11: the parameter loop of Parser.template_statement was not found")
-    lp0 = lps[0]
-    empty_rejected = False
-    for g in ast.walk(ts):
-        if isinstance(g, ast.If) and g.lineno < lp0.lineno and "GT" in str(dm.seg(g.test)) and \
-                any((pyflow.call_name(c) or "") == "self.error_msg" or isinstance(c, ast.Raise) for st in g.body for c in ast.walk(st)):
-            empty_rejected = True
-    after = [i for i in ast.walk(ts) if isinstance(i, ast.If) and i.lineno > lp0.end_lineno and "parameters" in str(dm.seg(i.test))
-             and any((pyflow.call_name(c) or "") == "self.error_msg" or isinstance(c, ast.Raise) for st in i.body for c in ast.walk(st))]
-    run.check(R, "declast.Parser.template_statement:empty-parameter-list", empty_rejected or bool(after),
-              "the loop `while self.token.typ != 'GT'` does not run for `template<>` and nothing rejects the empty list: "
-              "FunctionNode.__init__ reads template_parameters.parameters[0] (IndexError)", dm.loc(lp0))
+    # a list that must have an element: `template<>` has no parameter for FunctionNode to name the instantiations by,
+    # `instantiation: <>` no argument to bind to it
+    NONEMPTY = {
+        "Parser.template_statement": ("empty-parameter-list", "`template<>`", "FunctionNode.__init__ reads template_parameters.parameters[0] (IndexError)"),
+        "Parser.template_argument_list": ("empty-argument-list", "`cxx_template: - instantiation: <>`",
+                                          "the arguments are paired with the template parameters by position (IndexError)"),
+    }
+    # (Parser.parse_template_arguments, `std::vector<>` in a declaration: the empty list is refused by the consumer with
+    #  "std::vector must have template argument"; an empty argument list is C++ for "all defaults")
+    for q, (cid, example, effect) in sorted(NONEMPTY.items()):
+        ts = dm.func(q)
+        lps = [l for l in ast.walk(ts) if isinstance(l, ast.While) and "self.token.typ != 'GT'" in str(dm.seg(l.test))]
+        if not lps:
+            raise AnalysisError("C17.R11: the element loop of %s was not found" % q)
+        lp0 = lps[0]
+        empty_rejected = False
+        for g in ast.walk(ts):
+            if isinstance(g, ast.If) and g.lineno < lp0.lineno and "GT" in str(dm.seg(g.test)) and \
+                    any((pyflow.call_name(c) or "") == "self.error_msg" or isinstance(c, ast.Raise) for st in g.body for c in ast.walk(st)):
+                empty_rejected = True
+        after = [i for i in ast.walk(ts) if isinstance(i, ast.If) and i.lineno > lp0.end_lineno
+                 and re.search(r"\bnot \w|len\(|== \[\]", str(dm.seg(i.test)))
+                 and any((pyflow.call_name(c) or "") == "self.error_msg" or isinstance(c, ast.Raise) for st in i.body for c in ast.walk(st))]
+        run.check(R, "declast.%s:%s" % (q, cid), empty_rejected or bool(after),
+                  "the loop `while self.token.typ != 'GT'` does not run for %s and nothing rejects the empty list: %s"
+                  % (example, effect), dm.loc(lp0))
+    # `(void)` is the empty parameter list, and only that: `void` as one parameter among others, or with a name, is not a type
+    # a parameter can have.  The parser that special-cases the former has to refuse the latter.
+    dcl = dm.func("Parser.declaration")
+    special = [c for c in ast.walk(dcl) if isinstance(c, ast.Compare) and "['void']" in ast.unparse(c)]
+    if not special:
+        raise AnalysisError("C17.R11: Parser.declaration no longer recognises `(void)`")
+    refused = False
+    for lp in ast.walk(dcl):
+        if isinstance(lp, ast.For) and "params" in ast.unparse(lp.iter):
+            for i in ast.walk(lp):
+                if isinstance(i, ast.If) and "['void']" in ast.unparse(i.test) and \
+                        any((pyflow.call_name(c) or "") == "self.error_msg" or isinstance(c, ast.Raise) for st in i.body for c in ast.walk(st)):
+                    refused = True
+    run.check(R, "declast.Parser.declaration:void-parameter", refused,
+              "`(void)` alone is turned into the empty parameter list; no statement refuses a parameter of type void in any other "
+              "position: `void f(void, int)` and `void f(void x)` are accepted and a wrapper with a `void` argument is written",
+              dm.loc(special[0]))
     # a parser method that begins by *consuming* a token it has not looked at ("consume LPAREN peeked at in caller") relies
     # on every caller having seen that token
     am_ = repo.module("ast")
@@ -1365,7 +1392,8 @@ def rule_r13(repo, run):
         for a in ast.walk(repo.module(mn).tree):
             if isinstance(a, ast.Assign):
                 for t in a.targets:
-                    if isinstance(t, ast.Attribute):
+                    # `self.patterns = newlibrary.patterns` hands the same value on under the same name
+                    if isinstance(t, ast.Attribute) and not (isinstance(a.value, ast.Attribute) and a.value.attr == t.attr):
                         elsewhere.add(t.attr)
     na = 0
     for attr, paths in sorted(stored.items()):
@@ -1536,6 +1564,29 @@ def rule_r15(repo, run):
     run.floor(R, "helper table lookups in the wrappers", n, 4)
 
 
+def rule_r16(repo, run):
+    R = run.rule("C17.R16", "every declaration that can carry attributes goes through the attribute checks: the functions and "
+                            "variables of classes *and* of the library / namespaces")
+    gm = repo.module("generate")
+    fn = gm.func("VerifyAttrs.verify_namespace_attrs")
+    loops = {}
+    for lp in ast.walk(fn):
+        if isinstance(lp, ast.For) and isinstance(lp.iter, ast.Attribute) and isinstance(lp.iter.value, ast.Name):
+            checks = [pyflow.call_name(c) for c in ast.walk(lp) if isinstance(c, ast.Call) and (pyflow.call_name(c) or "").startswith("self.check_")]
+            loops[(lp.iter.value.id, lp.iter.attr)] = checks
+    owners = sorted(set(o for o, k in loops))
+    if ("node", "functions") not in loops:
+        raise AnalysisError("C17.R16: verify_namespace_attrs no longer loops over node.functions")
+    n = 0
+    for owner in ("node", "cls"):
+        for kind, check in (("functions", "self.check_fcn_attrs"), ("variables", "self.check_var_attrs")):
+            n += 1
+            run.check(R, "generate.VerifyAttrs.verify_namespace_attrs:%s.%s" % (owner, kind), check in loops.get((owner, kind), []),
+                      "the %s of %s never reach %s: `int *gv +dimension +bogus(3)` at library level is accepted with an illegal "
+                      "attribute and a dimension without a value" % (kind, "the library / a namespace" if owner == "node" else "a class",
+                                                                     check.split(".")[-1]), gm.loc(fn))
+
+
 def loader_modules():
     from sa.loader import PY_MODULES
     return PY_MODULES
@@ -1558,3 +1609,4 @@ def run(repo, run, tier):
     rule_r14(repo, run)
     rule_r15(repo, run)
     rule_r12(repo, run)
+    rule_r16(repo, run)
